@@ -678,15 +678,15 @@ def cases(ctx):
     for lru, cfg in ((True, 1), (True, 2), (False, 0), (False, 2)):
         for c in small_scope(lru, cfg, ctx.n(2, 3)):
             yield ("small-lru" if lru else "small-cache"), c
-    for _ in range(ctx.n(1200, 20000)):
+    for _ in range(ctx.n(900, 20000)):
         kind, c = gen_case(rng, rng.choice([3, 6, 10, 16, 24]))
         yield kind, c
-    for _ in range(ctx.n(500, 6000)):
+    for _ in range(ctx.n(400, 6000)):
         yield gen_boundary(rng)
     for _ in range(ctx.n(40, 400)):
         kind, c = gen_case(rng, rng.choice([60, 120, 250]))
         yield kind + "-long", c
-    for _ in range(ctx.n(150, 2000)):
+    for _ in range(ctx.n(120, 2000)):
         c, f = gen_concurrent(rng)
         if f:
             _gen_failures.append(f)
@@ -1012,12 +1012,6 @@ def ast_guard():
     if "self.lock = threading.Lock()" not in src:
         problems.append("CacheBase.__init__ no longer creates self.lock = threading.Lock()")
     return problems
-
-
-def unlocked_witness(problem):
-    """turn a guard failure into a concrete history when one is found: run concurrent histories and
-    look for one that is not equivalent to its lock-order witness"""
-    return None
 
 
 def extra(ctx):
